@@ -21,8 +21,11 @@ func main() {
 			"in a world template (mesh / registry / mesh-registry-only; multi-network with IPv4 and IPv6 east-west gateways) x base profile x base variant: with the real shared XdsCache warmed by one, the other's CDS+EDS+RDS must equal generation by uncached generators on the same snapshot, both orders, " +
 			"plus each proxy re-served from its own entries; quick = every attribute in two worlds on PRNG-chosen profiles/variants plus the full attribute x world x profile product on plain bases, thorough adds 260 PRNG base variants. " +
 			"A difference is keyed key-incomplete:<type>:<attribute>; when input shape and diff shape match a root cause analysed down to the missing key field (explain.go, reproductions: xdscache repro list) the key is key-incomplete:cause=<root cause>:<type>:<attribute> instead. " +
-			"(hist) PRNG histories of config/endpoint changes through the real ingestion with connected ADS clients being pushed concurrently; at every quiescent point every check proxy served from the warm shared cache == uncached generation, " +
-			"and right after EDSUpdate returned on an idle control plane EDS from the cache == uncached EDS. " +
+			"(hist) PRNG histories of config/endpoint changes through the real ingestion with connected ADS clients being pushed concurrently, while a harness goroutine keeps issuing pushes created from the PUBLISHED snapshot with Start=now " +
+			"for those clients (DiscoveryServer.ProxyUpdate as for a pod/WorkloadEntry label change, xds.AdsPushAll as the debug ?push=true) so that they interleave with the computation of the next snapshot; PushContext.InitContext is stretched in time only " +
+			"(harness config store whose List sleeps 4 ms when InitContext is the caller; counters report how many such pushes had their Start inside an InitContext window and how many cache writes from the replaced snapshot were accepted there); " +
+			"at every quiescent point every check proxy (connected ones and never-connected ones) served from the warm shared cache == uncached generation, " +
+			"and right after EDSUpdate returned on an idle control plane EDS from the cache == uncached EDS. A stale resource is traced to the push that wrote it (cache wrapper) and the key names the observed order of invalidation / snapshot computation / publication. " +
 			"(lru) 8 goroutines on model.NewXdsCache() following the callers' protocol (Start token, then read versioned source, then Add; updater bumps then Clear/ClearAll), version-tagged values, " +
 			"checked over the recorded history with a logical clock, plus index invariants at quiescence; strata: key-space/size ratios (LRU eviction), single writer, flush interval. " +
 			"Non-trivial: pair whose second proxy got >=1 cache hit or whose attribute changes fresh output; history checkpoint with >=1 cache hit on an entry and >=1 resource changed since the previous checkpoint; " +
@@ -30,6 +33,7 @@ func main() {
 		Assumptions: []string{
 			"reference = istio's own generators on the same environment and push context with model.DisabledCache (the oracle compares cache on/off, it does not judge generation itself)",
 			"the fake server is rewired so that discovery server, generators and endpoint index share one XdsCache as in bootstrap.NewServer",
+			"in (hist) the discovery server and the generators reach that cache through an observing wrapper and the Environment's ConfigStore is wrapped by a store that delays List calls made by InitContext: both only record and delay, neither changes a result",
 			"fresh generation must be reproducible for a difference to count (otherwise the case is inconclusive and left to C17)",
 			"cache tokens are wall-clock nanoseconds inside istio: a stale value whose writer's Start is not strictly before the covering Clear's call time is classified as a clock tie (inconclusive); a run during which the wall clock stepped back reports nothing",
 			"the (lru) monitor treats the documented mechanism 'PeerAuthentication change => all EDS entries dropped' as part of the protocol: EDS entries carry a PeerAuthentication epoch although they do not declare the dependency",
